@@ -187,6 +187,47 @@ impl<T: Default + Clone> DimArray<T> {
     }
 }
 
+#[cfg(feature = "verif-hooks")]
+impl Arrays {
+    pub(crate) fn verif_entries(&self) -> Vec<crate::verif::VerifArray> {
+        use crate::verif::{VerifArray, VerifValue};
+        let mut entries = self
+            .0
+            .iter()
+            .map(|(name, array)| match array {
+                ValueArray::String(array) => VerifArray {
+                    name: name.to_string(),
+                    string_storage: true,
+                    dimensions: array.dimensions.clone(),
+                    cell_count: array.values.len(),
+                    non_default_cells: array
+                        .values
+                        .iter()
+                        .enumerate()
+                        .filter(|(_, value)| !value.is_empty())
+                        .map(|(i, value)| (i, VerifValue::Str(value.to_string())))
+                        .collect(),
+                },
+                ValueArray::Number(array) => VerifArray {
+                    name: name.to_string(),
+                    string_storage: false,
+                    dimensions: array.dimensions.clone(),
+                    cell_count: array.values.len(),
+                    non_default_cells: array
+                        .values
+                        .iter()
+                        .enumerate()
+                        .filter(|(_, value)| value.to_bits() != 0)
+                        .map(|(i, value)| (i, VerifValue::Num(value.to_bits())))
+                        .collect(),
+                },
+            })
+            .collect::<Vec<_>>();
+        entries.sort_by(|a, b| a.name.cmp(&b.name));
+        entries
+    }
+}
+
 #[cfg(test)]
 mod tests {
     use crate::interpreter_error::{InterpreterError, OutOfMemoryError};
